@@ -17,6 +17,7 @@ import Driver.SemB
 import Driver.SemC
 import Driver.SemK
 import Driver.Ex
+import Driver.Load
 /-!
 Line-protocol driver `jsight-model` (DESIGN.md §12). One request per line on stdin, one reply per
 line on stdout. Core Lean only: nothing imported here may import Mathlib (the executable would
@@ -177,6 +178,7 @@ def handle (line : String) : String :=
       | _, _ => "ERR")
   | ["fmt", "U", hx] => if Formats.uuidOK (unhex hx) then "OK" else "ERR"
   | ["fmt", "D", hx] => if Formats.dateOK (unhex hx) then "OK" else "ERR"
+  | "load" :: r => DLoad.handle (r.headD "")
   | "omap" :: _ => DOMap.handle (restOf line)
   | "semn" :: _ => DSemN.handle (restOf line)
   | "sem" :: _ => DSem.handle (restOf line)
